@@ -53,6 +53,7 @@ class Walk:
     fill_call: Event
     pending_sym: Term
     popped_lists: Dict[str, Term] = field(default_factory=dict)
+    early_exits: List[Path] = field(default_factory=list)  # returning paths through the walk that hand no pairs over
 
     def cur(self, bp: BodyPath, side: str) -> Term:
         """The order of `side` that is current when the pair is examined on this path."""
@@ -74,7 +75,20 @@ def analyse_walk(ctx: Ctx) -> Walk:
     top = ctx.paths(EXEC)
     mains = [p for p in top if p.exit[0] == "return" and loops(p)]
     ctx.require(len(mains) >= 1, f"{EXEC}: no returning path through a loop")
-    main = mains[0]
+    def _fills_after(p_: Path) -> bool:
+        wl = [l for l in loops(p_) if l.loopkind == "while"]
+        if len(wl) != 1:
+            return False
+        aft = p_.events[p_.events.index(wl[0]) + 1:]
+        if any(e.kind == "call" and calls_target(e, "Market._execute_orders") for e in aft):
+            return True
+        return any(calls_target(e, "Market._execute_orders") for fl in aft if fl.kind == "loop" and fl.loopkind == "for" for bp in fl.paths for e in calls(bp, into_loops=False))
+
+    # the normal way through a round hands the pairs over after the walk; a round may also return after the walk
+    # without doing so (suppressed, nothing matched): those ways out are judged by the restore rule (C03.R3)
+    with_fills = [p for p in mains if _fills_after(p)]
+    main = (with_fills or mains)[0]
+    early = [p for p in mains if not _fills_after(p)] if with_fills else []
     lps = [l for l in loops(main) if l.loopkind == "while"]
     ctx.require(len(lps) == 1, f"{EXEC}: expected exactly one while-loop (the matching walk)")
     loop = lps[0]
@@ -144,5 +158,6 @@ def analyse_walk(ctx: Ctx) -> Walk:
             var["stmp"] = n
     ctx.require("btmp" in var and "stmp" in var, f"{EXEC}: cannot identify the remaining-volume counters of the walk")
     w = Walk(top, main, loop, body, var, pre, fill, pending_sym)  # type: ignore[arg-type]
+    w.early_exits = early
     ctx._walk = w  # type: ignore[attr-defined]
     return w
